@@ -102,6 +102,15 @@ def observe(sc, cfg, inputs, trace):
             g["ret"][me()] = 1 if r else 2
             g["badlock"] = g["badlock"] or not holds
 
+        def wait_interrupted(self):
+            sl = cond._lock._semlock
+            if sl.kind == 0:
+                holds = sl._mine() and sl._count() == depth_of[me()]
+            else:
+                holds = sl.v == 0 and sl._mine()
+            g["ret"][me()] = 3
+            g["badlock"] = g["badlock"] or not holds
+
         def await_all_registered(self):
             sched.request("obs", "await_all_registered", lambda: ["obs"] if wt <= g["reg"] else [])
             sched.done()
@@ -114,6 +123,9 @@ def observe(sc, cfg, inputs, trace):
         if t.name.startswith("W"):
             to = inputs.get(f"in.timeout.{t.tid}")
             fn = drivers_cond.waiter_reentrant if depth_of[t.name] == 2 else drivers_cond.waiter
+            if cfg.get("interrupt") and t.tid == 1:
+                fn = drivers_cond.waiter_interruptible
+                cond._wait_semaphore._semlock.interruptible.add(t.name)
             bodies[t.name] = (lambda to=to, fn=fn: fn(cond, obs, 1.0 if to else None))
         elif t.name.startswith("N"):
             j = int(t.name[1:]) - 1
